@@ -138,6 +138,19 @@ def check_single(ctx, rng, algtext):
         m5, e = lib_validate(rw, key, clock, b"")
         if e is None:
             ctx.violation("response-accepted-without-request-mac", "", dict(case, wire=rw))
+        # the other spellings of "sign with this key": a keyring of bare secrets with the algorithm as an argument, the key
+        # named or (one entry) not named -- same key, same algorithm, hence the same MAC
+        ctx.count("mon.use_tsig_spellings")
+        for named in (True, False):
+            m6, _ = GM.gen_message(rng, kind="query", size="small")
+            m6.use_tsig({dns.name.Name(kl): secret}, keyname=dns.name.Name(kl) if named else None, fudge=fudge, algorithm=dns.name.from_text(algtext))
+            with swap_attr(dns.message, "time", clock):
+                w6 = m6.to_wire(max_size=65535)
+            s6 = RT.Split(w6)
+            if tuple(RN.fold(l) for l in RT.alg_labels(algtext)) != tuple(RN.fold(l) for l in s6.algname) or s6.mac != RT.mac(algtext, secret, RT.digest_input(s6)):
+                ctx.violation(f"use_tsig-with-a-keyring-of-secrets-ignores-the-algorithm:{'key-named' if named else 'key-not-named'}",
+                              f"asked for {algtext}; TSIG record names {RN.to_text(s6.algname)}", dict(case, wire=w6))
+                break
         ctx.seen(("single", algtext, info["kind"], fudge == 0, bool(other)))
         return (w, kl, secret, key, now, algtext, s)
     except Exception as e:
@@ -377,9 +390,13 @@ def check_sequence(ctx, rng, algtext):
         kl2 = (kl[0] + b"x",) + tuple(kl[1:]) if rng.random() < 0.5 else (bytes([kl[0][0] ^ 0x02]) + kl[0][1:],) + tuple(kl[1:])
         secret2 = bytes(rng.randrange(256) for _ in range(16))
         other_alg = rng.choice([a for a in ("hmac-sha256.", "hmac-sha512.", "hmac-sha1.") if a != algtext])
-        for variant in ("other-key-name", "other-algorithm-bare-secret-keyring"):
+        for variant in ("other-key-name", "other-algorithm-bare-secret-keyring", "other-algorithm-keyring-of-keys", "other-algorithm-single-key"):
             if variant == "other-key-name":
                 ring = {dns.name.Name(kl): key, dns.name.Name(kl2): dns.tsig.Key(dns.name.Name(kl2), secret2, dns.name.from_text(algtext))}
+            elif variant == "other-algorithm-keyring-of-keys":
+                ring = {dns.name.Name(kl): key}
+            elif variant == "other-algorithm-single-key":
+                ring = key
             else:
                 ring = {dns.name.Name(kl): secret}
             last_w, _ = seq[-1]
